@@ -406,6 +406,14 @@ def run(repo, rep):
                 g = g or Guards(f.node)
                 arg0 = src(base.args[0]) if base.args else ''
                 guarded = any(ff.pol and ('len(%s) == 1' % arg0 == ff.text or ff.text == arg0) for ff in g.of(s_)) and call_name(base) in ('list', 'tuple')
+                # a package function whose every return is a tuple / list display long enough for the index
+                r_ = repo.resolve(f.module, call_name(base)) if isinstance(base.func, ast.Name) else None
+                if r_ and r_[0] == 'func':
+                    rets_ = [x for x in effects._own_nodes(r_[1].node) if isinstance(x, ast.Return)]
+                    idx_ = s_.slice.value
+                    safe = safe or (bool(rets_) and all(
+                        isinstance(x.value, (ast.Tuple, ast.List)) and not any(isinstance(e_, ast.Starred) for e_ in x.value.elts)
+                        and (len(x.value.elts) > idx_ if idx_ >= 0 else len(x.value.elts) >= -idx_) for x in rets_))
                 rep.check(safe or guarded, 'C07.e', '%s:index-on-call:%s' % (f.qualname, src(s_)[:40]), '%s:%d' % (f.module.relpath, s_.lineno),
                           'indexing a never-empty call result',
                           '%s evaluates %s: the indexed result can be empty (IndexError inside the pipeline)' % (f.qualname, src(s_)), nontrivial=True)
